@@ -9,8 +9,14 @@ harness.common.run_mc/tlc, in a scratch copy of spec/, see thin_rat) and reads T
     found a NEW state (`0:m`)                                                                        [kind "action"]
   * a sub-expression of an action was never evaluated: a disjunct / IF- or CASE-branch of a monolithic Next that is
     dead in this configuration                                                                        [kind "branch"]
-  * a sub-expression of an INVARIANT was never evaluated: the law's guard is never true, the law holds vacuously
-    in this configuration (or one of its IF/CASE branches is never exercised)                         [kind "law"]
+  * a sub-expression of an INVARIANT is reported with count 0, or a reachability probe (PROBED) of a law's guard is
+    never satisfied                                                                                   [kind "law"]
+    LIMITATION (measured, TLC 2026.09): the textual statistics print a zero count only for "primed locations"
+    (x' = e, x' in S, UNCHANGED) -- a never-evaluated consequent / IF-branch of an INVARIANT, or a never-true guard
+    conjunct of an action, is silently left out and its parent is collapsed (OpApplNodeWrapper.print).  So this guard
+    is reliable for actions and for the assignment part of every disjunct of Next, NOT for vacuous law guards: those
+    are only covered where PROBED lists explicit guard predicates.  (Making OpApplNodeWrapper.isPrimed() return true
+    -- a 3-byte patch of the class, tried in a scratch directory only -- makes TLC print all zero counts.)
   * the model finishes with fewer than MIN_STATES distinct states                                     [kind "tiny"]
   * a configuration that must pass fails / a refutation configuration (defective design) passes
 
